@@ -42,10 +42,13 @@ def build_driver(ctx):
 def parse_trace(path):
     """-> plans {idx: {header, ops:[op text], lines:[full lines]}}, oracle fails"""
     plans, cur, fails = {}, None, []
+    boundary = False
     if not os.path.exists(path):
         return plans, fails
     for raw in open(path, errors="replace"):
         line = raw.rstrip("\n")
+        if line.strip() == "# BOUNDARY":
+            boundary = True
         if line.startswith("PLAN "):
             m = re.search(r"idx=(\d+)", line)
             cur = {"header": line, "ops": [], "lines": []}
@@ -57,6 +60,8 @@ def parse_trace(path):
                 fails.append({"prop": m.group(1), "name": m.group(2), "detail": m.group(3),
                               "plan": int(pm.group(1)) if pm else None, "op": int(pm.group(2)) if pm else None,
                               "trace": path})
+                if boundary and pm is None:
+                    fails[-1]["plan_text"] = "BOUNDARY\n"      # the fixed boundary scenarios: the replay re-runs them all
         elif line.startswith("END") or line.startswith("SUMMARY") or line.startswith("#") or not line.strip():
             continue
         elif cur is not None:
@@ -158,6 +163,14 @@ def run(ctx, mult=1, seed_shift=0, corpus=True):
         else:
             return {"infra_error": "harness_vec (release) does not build: " + err[-800:], "oracle_fails": [], "diffs": []}
     jobs = []
+    if ctx.spec.get("boundary"):
+        # fixed scenarios around usize::MAX (zero-sized elements), in both build profiles: wrapping arithmetic only shows
+        # where overflow checks are off
+        rel, err = build_harness(ctx, release=True)
+        if not rel:
+            return {"infra_error": "harness_vec (release) does not build: " + err[-800:], "oracle_fails": [], "diffs": []}
+        jobs.append((bvh, ["boundary"], "dev_boundary"))
+        jobs.append((rel, ["boundary"], "rel_boundary"))
     if corpus:
         for i, f in enumerate(sorted(glob.glob(os.path.join(CORPUS, "*.plan")))):
             for name, b, _ in bins:
@@ -244,8 +257,9 @@ def shrink(ctx, plan_text, fail):
     longer exists are skipped by the harness, so every subsequence is a valid plan"""
     bvh = _bin_for(fail)
     lines = [l for l in plan_text.split("\n") if l.strip()]
-    if len(lines) < 2 or not still_fails(ctx, bvh, plan_text, fail):
-        return plan_text, False
+    ok = still_fails(ctx, bvh, plan_text, fail)
+    if len(lines) < 2 or not ok:
+        return plan_text, ok
     header, ops = lines[0], lines[1:]
     budget = 200
     changed = True
